@@ -90,7 +90,7 @@ func outputTupleDir(v rel.Value, dir string, fs afero.Fs, dryRun bool) error {
 	if err != nil {
 		return err
 	}
-	if _, err := fs.Stat(dir); os.IsNotExist(err) {
+	if fi, err := fs.Stat(dir); os.IsNotExist(err) {
 		if !dryRun {
 			if err := fs.Mkdir(dir, 0755); err != nil {
 				return err
@@ -98,6 +98,8 @@ func outputTupleDir(v rel.Value, dir string, fs afero.Fs, dryRun bool) error {
 		}
 	} else if err != nil {
 		return err
+	} else if !fi.IsDir() {
+		return fmt.Errorf("%s exists and is not a directory", dir)
 	}
 
 	// this is to allow empty directory
@@ -165,6 +167,14 @@ func outputFile(content rel.Value, path string, fs afero.Fs, dryRun bool) (err e
 			return fmt.Errorf("file output not string or byte array: %v", content)
 		}
 		bytes = []byte{}
+	}
+
+	if fi, err := fs.Stat(path); err == nil {
+		if fi.IsDir() {
+			return fmt.Errorf("%s exists and is a directory", path)
+		}
+	} else if !os.IsNotExist(err) {
+		return err
 	}
 
 	if dryRun {
